@@ -152,3 +152,7 @@ def run(ctx, log):
 
 def replay(ctx, data, log):
     progcheck.replay_source(ctx, data, log, budget=3000)
+
+
+def search(ctx, log):
+    progcheck.search_programs(ctx, log, n=4000 if ctx.quick else 40000)
